@@ -162,3 +162,8 @@ class Commands:
             return cmd_type.parse(buf, params)
         except NotParseable as exc:
             return InvalidCommand(params, exc, command, cmd_type), buf[0:0]
+        except (ValueError, RecursionError):
+            # e.g. undecodable bytes, integers with thousands of digits or
+            # absurdly nested lists: a bad command, not a server error
+            exc = NotParseable(buf)
+            return InvalidCommand(params, exc, command, cmd_type), buf[0:0]
